@@ -116,6 +116,39 @@ func walkLeaves(v reflect.Value, path, key string, out *[]Leaf, inKnownXR bool) 
 	}
 }
 
+// Reseed rewrites every free leaf of p as a function of n: other numbers in every 16/32/64-bit scalar that
+// is not structural, other text (same length) in every string. Different n give different values of the
+// same shape (used to put many distinct values through caches).
+func Reseed(p rtcp.Packet, n int) {
+	for idx, l := range Leaves(p) {
+		h := uint64(n+1)*0x9e3779b97f4a7c15 + uint64(idx)*0xc2b2ae3d27d4eb4f
+		h ^= h >> 29
+		switch l.Kind {
+		case "uint":
+			if l.Bits >= 16 && l.Bits == l.v.Type().Bits() && !skipKeys[l.Key] && !l.knownXR {
+				l.v.SetUint((l.v.Uint() ^ h) & (uint64(1)<<uint(l.Bits) - 1))
+			}
+		case "string":
+			b := []byte(l.v.String())
+			for i := range b {
+				b[i] = "abcdefghijklmnopqrstuvwxyz0123456789"[(h>>uint(5*(i%12))+uint64(i))%36]
+			}
+			l.v.SetString(string(b))
+		}
+	}
+}
+
+// StringLeaves returns the values of all string leaves of p in order.
+func StringLeaves(p rtcp.Packet) []string {
+	var out []string
+	for _, l := range Leaves(p) {
+		if l.Kind == "string" {
+			out = append(out, string(append([]byte{}, l.v.String()...)))
+		}
+	}
+	return out
+}
+
 // Perturb flips bits in every 32-bit scalar leaf (SSRCs, timestamps), so that two values built from the
 // same tagged base no longer carry the same numbers.
 func Perturb(p rtcp.Packet) {
